@@ -929,7 +929,7 @@ func (c *compiler) compilePredicate(f *flow, t *task, call *ast.CallExpr) *predi
 	fn := call.Args[0]
 	fnType := c.info.TypeOf(fn)
 
-	sig, ok := fnType.(*types.Signature)
+	sig, ok := fnType.Underlying().(*types.Signature)
 	if !ok {
 		c.errf(c.nodePosition(fn), "cff.Predicate expected a function but received %v", fnType)
 		return nil
@@ -1042,7 +1042,7 @@ type output struct {
 
 func (c *compiler) compileOutput(o ast.Expr) *output {
 	t := c.info.TypeOf(o)
-	p, ok := t.(*types.Pointer)
+	p, ok := t.Underlying().(*types.Pointer)
 	if !ok {
 		c.errf(c.nodePosition(o), "invalid parameter to cff.Results: "+"expected pointer, got %v", t)
 		return nil
